@@ -222,13 +222,27 @@ void sr_before_lock(void *m)
     set_owner(m, me);
 }
 
+int sr_unlock_points;   /* 1: the point right after every unlock is a scheduling point too (a thread that keeps using
+                           shared state after dropping its lock can then be interleaved exactly there) */
+
 void sr_after_unlock(void *m)
 {
-    if (sr_me < 0)
+    int me = sr_me, next;
+    if (me < 0)
     {
         return;
     }
     set_owner(m, -1);
+    if (sr_unlock_points)
+    {
+        next = choose(me, 1);
+        if (next >= 0 && next != me)
+        {
+            running = next;
+            pass_to(next);
+            wait_turn(me);
+        }
+    }
 }
 
 void sr_main_wait(void)
